@@ -124,6 +124,32 @@ def run(tier, seed):
         n = rng.range(2, 14)
         syms = [rng.weighted([("w0", 3), ("w1", 2), ("w2", 2), ("f", 3), ("r0", 3), ("r1", 3), ("r2", 2)]) for _ in range(n)]
         cases.append((materialise(syms) + [("r", 2)] * 6, False))
+    # single writes of every size class (one byte ... far beyond any internal buffer), read back with large and small buffers
+    big = []
+    for size in [1, 100, 4095, 4096, 4097, 8191, 8192, 8193, 10000, 20000, 65536, 100000] if tier == "quick" else [1, 100, 1023, 1024, 1025, 4095, 4096, 4097, 8191, 8192, 8193, 10000, 16384, 20000, 65535, 65536, 65537, 100000, 300000]:
+        data = [(rng.below(251) + 1) for _ in range(size)]
+        for rb in (size + 10, 4096, 777):
+            nreads = size // rb + 3
+            big.append(([("w", data), ("f",)] + [("r", rb)] * (nreads + 2), True))
+        if size >= 2:      # (an empty write is one of the operations the property excludes)
+            big.append(([("w", data[: size // 2]), ("w", data[size // 2:]), ("f",)] + [("r", 50000)] * 12, True))
+    # (binary only: the model counts sizes in unary, and its theorem already covers every size)
+    big_answers = run_driver_cases([line_of(ops) for ops, _ in big], timeout=120)
+    for (ops, _), ans in zip(big, big_answers):
+        outs = parse_answers(ans)
+        size = sum(len(o[1]) for o in ops if o[0] == "w")
+        if outs is None or len(outs) != len(ops):
+            rep.violation(f"unexpected answer from the pipe driver for a write of {size} bytes: {ans[:120]}", {"ops": line_of(ops)[:300], "answer": ans[:300]})
+            continue
+        why = monitor(ops, outs)
+        wrote = [o[1] for o in outs if o[0] == "wrote"]
+        asked = [len(o[1]) for o in ops if o[0] == "w"]
+        if not why and wrote != asked:
+            why = f"write reported {wrote} bytes accepted for writes of {asked} bytes"
+        if why:
+            rep.violation(f"pipe is not an exactly-once FIFO for a write of {size} bytes: " + (why if len(why) < 300 else why[:120] + " ... " + why[-120:]),
+                          {"ops": line_of(ops)[:200] + " ...", "write_sizes": asked, "read_buffer": [o[1] for o in ops if o[0] == "r"][:1], "why": why[:400]})
+    rep.coverage["large_single_writes"] = len(big)
     answers = run_driver_cases([line_of(ops) for ops, _ in cases], timeout=60)
     terms, idx = [], []
     mon_fail = []
